@@ -183,20 +183,25 @@ def run_random(spec, acc, focus):
                         n = len(L)
                         theta = rng.choice([0.3, 0.5, 0.9, rng.random() * 0.98 + 0.01])
                         style = rng.choice(['rand', 'tied', 'zero', 'dominant'])
-                        if rng.random() < 0.5:
-                            eta = _eta(rng, n, style)
-                            ls.mesh.dorfler_refine_isotropic(eta, theta)
-                            ls.history.append(['d_iso', style, theta])
+                        variant = 'iso' if rng.random() < 0.5 else 'aniso'
+                        eta = _eta(rng, n, style) if variant == 'iso' else np.array([_eta(rng, n, style), _eta(rng, n, style)]).T.copy()
+                        ls.history.append(['d_' + variant, style, theta])
+                        if focus == 'C02':
+                            # marking-driven refinement must be the minimal closure too: judged with C06's oracle
+                            # (marked set from the depth-0 requests, post-mesh == reference model)
+                            from ..props.c06 import observe_call
+                            ev_pending = log.take()
+                            ok = observe_call(acc, ls, log, variant, eta, theta, style,
+                                              {'mesh': ms, 'history': list(ls.history), 'eta_kind': style, 'theta': theta})
+                            log.events.extend(ev_pending)
+                            if not ok:
+                                break
                         else:
-                            eta = np.array([_eta(rng, n, style), _eta(rng, n, style)]).T.copy()
-                            ls.mesh.dorfler_refine_anisotropic(eta, theta)
-                            ls.history.append(['d_aniso', style, theta])
-                        ls.ref = rm.RefMesh.from_leaves(rm.leaf_dict(ls.mesh).items(), ls.glued, ls.domain)
-                        irr = ls.ref.irregularity()
-                        if max(irr) > 1 and focus == 'C02':
-                            acc.violation('mesh-invariant:not-1-irregular-after-marking',
-                                          'level jumps %r after Doerfler step' % (irr, ),
-                                          {'mesh': ms, 'history': ls.history})
+                            if variant == 'iso':
+                                ls.mesh.dorfler_refine_isotropic(eta, theta)
+                            else:
+                                ls.mesh.dorfler_refine_anisotropic(eta, theta)
+                            ls.ref = rm.RefMesh.from_leaves(rm.leaf_dict(ls.mesh).items(), ls.glued, ls.domain)
                     else:
                         continue
                 except (Exception, RecursionError) as ex:
